@@ -107,6 +107,12 @@ func genC06(r *Rng, tier string, idx int) *Plan {
 	for i := 0; i < nusers; i++ {
 		p.Ops = append(p.Ops, mkUser(i))
 	}
+	if idx%4 == 3 {
+		// rule edits racing in-flight commands: every following (edit, command) pair runs concurrently,
+		// interleaved by the dice at every store-lock acquisition and keyspace call
+		p.Profile = "race"
+		p.Dice = drawDice(r, 256)
+	}
 	nconn := r.Range(1, 3)
 	p.Knobs["conns"] = int64(nconn)
 	for c := 0; c < nconn; c++ {
@@ -133,11 +139,21 @@ func genC06(r *Rng, tier string, idx int) *Plan {
 			ch := pickSome(r, c18Channels, 1, 2)
 			p.Ops = append(p.Ops, Op{C: c, Args: append([]string{Pick(r, []string{"SUBSCRIBE", "PUBLISH"})}, ch...)})
 		case x < 88:
+			if p.Profile == "race" {
+				// edit an EXISTING user while one of its sessions has a command in flight
+				// (only on/off: how other tokens combine with an existing user's rules is incremental and not modelled)
+				e := Op{Kind: "toggle", Args: []string{"ACL", "SETUSER", fmt.Sprintf("u%d", r.Intn(next)), Pick(r, []string{"off", "off", "on"})}}
+				p.Ops = append(p.Ops, e, Op{C: c, Args: g.Cmd(r)})
+				break
+			}
 			p.Ops = append(p.Ops, mkUser(next))
 			p.Ops = append(p.Ops, Op{Kind: "auth", C: c, Args: []string{"AUTH", fmt.Sprintf("u%d", next), fmt.Sprintf("pw%d", next)}})
 			next++
 		case x < 93:
 			p.Ops = append(p.Ops, Op{Kind: "deluser", Args: []string{"ACL", "DELUSER", fmt.Sprintf("u%d", r.Intn(next))}})
+			if p.Profile == "race" {
+				p.Ops = append(p.Ops, Op{C: c, Args: g.Cmd(r)})
+			}
 		default:
 			p.Ops = append(p.Ops, Op{Kind: "auth", C: c, Args: []string{"AUTH", fmt.Sprintf("u%d", r.Intn(next)), fmt.Sprintf("pw%d", r.Intn(next))}})
 		}
@@ -365,11 +381,118 @@ func runC06(t *testing.T, p *Plan) *Outcome {
 		}
 		users := map[string]*c06User{}
 		data := func() map[string]string { return DataMap(inst.DB.VerifDump(), false) }
+		dice := p.NewDice()
+		skip := -1
 		for i, op := range p.Ops {
 			if o.Sig != "" {
 				break
 			}
+			if i == skip {
+				continue
+			}
+			if p.Profile == "race" && (op.Kind == "toggle" || op.Kind == "deluser") && i+1 < len(p.Ops) && p.Ops[i+1].Kind == "" && len(op.Args) >= 4-ifi(op.Kind == "deluser") {
+				// ---- concurrent pair
+				nx := p.Ops[i+1]
+				c := nx.C % nconn
+				name := strings.ToLower(nx.Args[0])
+				cats := catsOf[name]
+				if len(cats) == 0 || name == "subscribe" {
+					continue
+				}
+				decide := func() (int, string) {
+					u := who[c]
+					switch {
+					case u == nil:
+						return -1, "connection not authenticated"
+					case users[u.name] == nil || !users[u.name].enabled:
+						return -1, "user deleted or disabled"
+					}
+					return users[u.name].decide(nx.Args, cats)
+				}
+				v1, _ := decide()
+				if op.Kind == "toggle" {
+					if u := users[op.Args[2]]; u != nil {
+						u.enabled = op.Args[3] == "on"
+					}
+				} else {
+					delete(users, op.Args[2])
+				}
+				v2, why2 := decide()
+				before := data()
+				var cres Result
+				cdone, adone := false, false
+				admin.Start(op.Args, func(r Result) { adone = true })
+				conns[c].Start(nx.Args, func(r Result) { cres, cdone = r, true })
+				for st := 0; st < 4000 && !(cdone && adone); st++ {
+					parked := s.ParkedTasks()
+					if len(parked) == 0 {
+						s.Settle()
+						if len(s.ParkedTasks()) == 0 {
+							break
+						}
+						continue
+					}
+					tk := parked[dice.Next(len(parked))]
+					s.noteChoice(len(parked), tk.Site)
+					s.Release(tk)
+				}
+				s.DrainAll(2000)
+				classes = append(classes, fmt.Sprintf("race:%s||%s:%+d/%+d", op.Kind, name, v1, v2))
+				if conns[c].SrvPanic != "" || admin.SrvPanic != "" {
+					fail("panic/race", conns[c].SrvPanic+admin.SrvPanic)
+					break
+				}
+				if !adone {
+					fail("race/edit-never-completed", fmt.Sprintf("step %d %q racing %q never returned", i, op.Args, nx.Args))
+					break
+				}
+				// the command is judged under the rules before or after the edit - nothing else
+				if cdone && !cres.Closed && !cres.NoReply {
+					denied := isAuthDenial(cres)
+					if v1 == 1 && v2 == 1 && denied {
+						fail("allowed-but-denied/race", fmt.Sprintf("step %d %q racing %q: allowed before and after the edit but denied: %s", i, nx.Args, op.Args, cres.Reply.Str))
+					}
+					if v1 == -1 && v2 == -1 && !cres.IsError() {
+						fail("denied-but-ran/race", fmt.Sprintf("step %d %q racing %q: denied before and after the edit (%s) but answered %s", i, nx.Args, op.Args, why2, trunc(cres.String(), 80)))
+					}
+					if denied {
+						if after := data(); !mapsEqual(before, after) {
+							fail("denied-with-effect/race", fmt.Sprintf("step %d %q racing %q was denied but changed the dataset: %s", i, nx.Args, op.Args, DiffData(before, after, "before", "after", 3)))
+						}
+					}
+				}
+				// sessions of a deleted user are gone afterwards
+				if op.Kind == "deluser" {
+					for cc := range who {
+						if who[cc] != nil && who[cc].name == op.Args[2] {
+							conns[cc] = s.NewTCPClient(inst, fmt.Sprintf("c%d.%d", cc, i))
+							who[cc] = nil
+						}
+					}
+				} else if cdone && cres.Closed {
+					conns[c] = s.NewTCPClient(inst, fmt.Sprintf("c%d.%d", c, i))
+					who[c] = nil
+				}
+				if v1 != 0 || v2 != 0 {
+					if v1 == 1 || v2 == 1 {
+						allowed++
+					}
+					if v1 == -1 || v2 == -1 {
+						denied++
+					}
+				}
+				skip = i + 1
+				continue
+			}
 			switch op.Kind {
+			case "toggle":
+				if len(op.Args) < 4 {
+					continue
+				}
+				admin.DoSync(op.Args...)
+				if u := users[op.Args[2]]; u != nil {
+					u.enabled = op.Args[3] == "on"
+				}
 			case "setuser":
 				if len(op.Args) < 4 {
 					continue
@@ -471,6 +594,13 @@ func runC06(t *testing.T, p *Plan) *Outcome {
 	o.Class = strings.Join(classes, ",")
 	o.Sample = map[string]any{"allowed": allowed, "denied": denied, "decisions": classes}
 	return o
+}
+
+func ifi(b bool) int {
+	if b {
+		return 1
+	}
+	return 0
 }
 
 func ruleClass(why string) string {
